@@ -37,13 +37,14 @@ def mc_module(fam):
         f.pop("desc")
         return "[" + ", ".join("%s |-> %s" % (k, tla_val(v)) for k, v in f.items()) + "]"
     cat = fam["cat"]
-    return {"MCCore.tla": "---- MODULE MCCore ----\nEXTENDS Core\nMCPeers == %s\nMCCat == %s\nMCAttr == (%s)\nMCEnabled == %s\nMCSensors == %s\n====\n" % (
+    return {"MCCore.tla": "---- MODULE MCCore ----\nEXTENDS Core\nMCPeers == %s\nMCCat == %s\nMCAttr == (%s)\nMCEnabled == %s\nMCSensors == %s\nMCVecDests == %s\nMCVecLevels == %s\n====\n" % (
         tla_val(set(fam["peers"])), tla_val(set(cat)), " @@ ".join('"%s" :> %s' % (n, rec(a)) for n, a in cat.items()), tla_val(set(fam["enabled"])),
-        tla_val(set(p for p in fam["peers"] if p.startswith("s"))))}
+        tla_val(set(p for p in fam["peers"] if p.startswith("s"))),
+        tla_val(set(fam.get("vecdests", list(fam["peers"]) + ["far", "bcast"]))), tla_val(set(fam.get("veclevels", [0, 1, 2, 3]))))}
 
 
 def cfg_text(algo, budget, steps, mode, view=True):
-    t = ('SPECIFICATION Spec\nCONSTANTS\n Peers <- MCPeers\n Cat <- MCCat\n Attr <- MCAttr\n Algo = "%s"\n Sensors <- MCSensors\n Budget = %d\n Enabled <- MCEnabled\n'
+    t = ('SPECIFICATION Spec\nCONSTANTS\n Peers <- MCPeers\n Cat <- MCCat\n Attr <- MCAttr\n Algo = "%s"\n Sensors <- MCSensors\n Budget = %d\n Enabled <- MCEnabled\n VecDests <- MCVecDests\n VecLevels <- MCVecLevels\n'
          ' MaxSteps = %d\n EmitMode = "%s"\nINVARIANTS NoSilentLoss CopiesInRange Conservation DistinctIds Emit\n' % (algo, budget, steps, mode))
     if view:
         t += "VIEW SView\n"
@@ -62,7 +63,11 @@ def run_families(chk, prop, plans, tier, max_hist=None):
         base = dict(module="MCCore", extra_files=m, deadlock=False, timeout=1500, heap="2g")
         if pl.get("mc", True):
             jobs.append(("mc%d" % i, dict(base, cfg_text=cfg_text(pl["algo"], pl["budget"], pl["steps"] + 2, "none"), name="core-mc-%d" % i)))
-        jobs.append(("gen%d" % i, dict(base, cfg_text=cfg_text(pl["algo"], pl["budget"], pl["steps"], "edge"), name="core-gen-%d" % i)))
+        if pl.get("allpaths"):
+            # every behaviour of exactly this length (small families only): history-dependent defects hide from one-per-edge coverage
+            jobs.append(("gen%d" % i, dict(base, cfg_text=cfg_text(pl["algo"], pl["budget"], pl["steps"], "final", view=False), name="core-gen-%d" % i)))
+        else:
+            jobs.append(("gen%d" % i, dict(base, cfg_text=cfg_text(pl["algo"], pl["budget"], pl["steps"], "edge"), name="core-gen-%d" % i)))
         if pl.get("sim"):
             n, depth = pl["sim"]
             jobs.append(("sim%d" % i, dict(base, cfg_text=cfg_text(pl["algo"], pl["budget"], depth, "final", view=False), name="core-sim-%d" % i,
